@@ -1,7 +1,9 @@
 import OW.Kernels.Basic
 /-
 models/rr/sacramento.go — sacramento, makeUnitHydrograph, expression by expression, AS REPAIRED by
-/verif/fixes/sacramento-adimp-ratio.diff (`if ratio < 0 { ratio = 0 }` in the drainage loop, as in the NWS original).
+/verif/fixes/sacramento-adimp-ratio.diff (`if ratio < 0 { ratio = 0 }` in the drainage loop) and
+/verif/fixes/sacramento-fracp-clamp.diff (primary share of the free-water percolation `min(1, hpl·2·ratlp/(ratlp+ratls))`),
+both as in the NWS original (`IF(RATIO.LT.0.) RATIO=0.`, `IF(FRACP.GT.1.0) FRACP=1.0`).
 
 State row of one cell: [UprTensionWater, UprFreeWater, LwrTensionWater, LwrPrimaryFreeWater, LwrSupplFreeWater,
 AdditionalImperviousStore]. Inside one call the code works on `alzfpc = LwrPrimaryFreeWater·(1+side)` and
@@ -122,7 +124,9 @@ def incBody (p : Params α) (c : Consts α) (uztwc pinc dinc duz dlzp dlzs hpl :
       if (0.0 : α) < percfw then
         let ratlp := 1.0 - alzfpc2 / c.alzfpm
         let ratls := 1.0 - alzfsc2 / c.alzfsm
-        let percs0 := Num.gmin (c.alzfsm - alzfsc2) (percfw * (1.0 - hpl * (ratlp + ratlp) / (ratlp + ratls)))
+        -- as repaired (fixes/sacramento-fracp-clamp.diff): the primary share of the percolation is at most one
+        let fracp := Num.gmin 1.0 (hpl * (ratlp + ratlp) / (ratlp + ratls))
+        let percs0 := Num.gmin (c.alzfsm - alzfsc2) (percfw * (1.0 - fracp))
         let alzfsc3 := alzfsc2 + percs0
         let percs := if c.alzfsm < alzfsc3 then percs0 - alzfsc3 + c.alzfsm else percs0
         let alzfsc4 := if c.alzfsm < alzfsc3 then c.alzfsm else alzfsc3
@@ -132,7 +136,8 @@ def incBody (p : Params α) (c : Consts α) (uztwc pinc dinc duz dlzp dlzs hpl :
         (uzfwc2, floin1, lztwc1, alzfsc5, alzfpc4,
           ["uzfw", "percfw"] ++ (if (0.0 : α) < lzair then ["lzair"] else ["lz_full"]) ++
           (if lzair2 < percfw0 then ["percfw_excess"] else []) ++
-          (if c.alzfsm < alzfsc3 then ["spill_s"] else []) ++ (if c.alzfpm < alzfpc3 then ["spill_p"] else []))
+          (if c.alzfsm < alzfsc3 then ["spill_s"] else []) ++ (if c.alzfpm < alzfpc3 then ["spill_p"] else []) ++
+          (if (1.0 : α) < hpl * (ratlp + ratlp) / (ratlp + ratls) then ["fracp_clamped"] else []))
       else
         (uzfwc2, floin1, lztwc1, alzfsc2, alzfpc2,
           ["uzfw", "no_percfw"] ++ (if (0.0 : α) < lzair then ["lzair"] else ["lz_full"]) ++
